@@ -53,9 +53,10 @@ func boundsConfig(prog *core.Program, pk *packages.Package, withSkipPre bool) *b
 }
 
 // boundsConfigSkip selects a contract pass for (*Decoder).Skip:
-//   ""       no caller-side hypothesis (bounds obligations)
-//   "lemma"  cursor is past a key of this tag ⇒ the result is key + payload
-//   "wtN"    wire type N ⇒ the cursor advances by the payload width of N
+//
+//	""       no caller-side hypothesis (bounds obligations)
+//	"lemma"  cursor is past a key of this tag ⇒ the result is key + payload
+//	"wtN"    wire type N ⇒ the cursor advances by the payload width of N
 func boundsConfigSkip(prog *core.Program, pk *packages.Package, skipMode string) *bounds.Config {
 	withSkipPre := skipMode == "lemma"
 	cfg := &bounds.Config{
